@@ -158,6 +158,83 @@ func C02(p *engine.Prog, r *engine.Report) {
 	importRules(p, r, "C06", map[string]string{"C06-R1": "C02-R6"})
 	// ---------------- R7: flags the proposer may choose are chosen under the validator's conditions
 	offlineFlagsPeriodRule(p, r, "C02-R7")
+	// ---------------- R8: what the builder applies is what it includes
+	if ft != nil {
+		var ap *ssa.Call
+		for _, c := range callsTo(ft, "blockchain.Blockchain.applyTxOnState") {
+			ap, _ = c.(*ssa.Call)
+		}
+		if ap == nil {
+			r.Und("C02-R8", "filterTxs|apply/include pairing", p.Pos(ft.Pos()), "applyTxOnState not called")
+		} else {
+			g := nilErrGuards(ft, ap)
+			hdr := engine.LoopHeaderOf(ap.Block())
+			// the append of the transaction to the result list
+			incl := map[*ssa.BasicBlock]bool{}
+			for _, c := range engine.Calls(ft) {
+				if bi, ok := c.Common().Value.(*ssa.Builtin); ok && bi.Name() == "append" && len(c.Common().Args) == 2 {
+					if sl, isS := c.Common().Args[1].(*ssa.Slice); isS {
+						_ = sl
+					}
+					for v := range engine.BackSlice(c.Common().Args[1], engine.DefaultSlice) {
+						if v == ssa.Value(ap.Call.Args[1]) || engine.Origin(v) == engine.Origin(ap.Call.Args[1]) {
+							if nn := engine.NamedOf(sliceElem(c.Common().Args[0].Type())); nn != nil && nn.Obj().Name() == "Transaction" {
+								incl[c.Block()] = true
+							}
+						}
+					}
+				}
+			}
+			// one obligation per configuration branch under which the applied transaction can be left out
+			byBranch := map[string][]string{}
+			if len(g) > 0 && hdr != nil && len(incl) > 0 {
+				pe := g[0].PassEdge()
+				start := pe.From.Succs[pe.Succ]
+				lb := loopBlocks(hdr)
+				if !incl[start] {
+					// stay inside the iteration: blocks of the loop, not past an including block, not past the header
+					stop := map[*ssa.BasicBlock]bool{hdr: true}
+					for b := range incl {
+						stop[b] = true
+					}
+					for _, b := range ft.Blocks {
+						if !lb[b] {
+							stop[b] = true
+						}
+					}
+					reach := engine.ReachAvoiding(ft, start, nil, stop)
+					for b := range reach {
+						if stop[b] {
+							continue
+						}
+						last := b.Instrs[len(b.Instrs)-1]
+						leaves := false
+						if _, isRet := last.(*ssa.Return); isRet {
+							leaves = true
+						}
+						for _, s := range b.Succs {
+							if !lb[s] || s == hdr {
+								leaves = true
+							}
+						}
+						if leaves {
+							br := configBranchOf(b)
+							byBranch[br] = append(byBranch[br], p.InstrPos(last))
+						}
+					}
+				}
+				if len(byBranch) == 0 {
+					r.OK("C02-R8", "filterTxs|a transaction applied to the check state is included", p.InstrPos(ap), "result = append(result, tx) on every path after applyTxOnState==nil")
+				}
+				for _, br := range sortedKeys(keysOfLists(byBranch)) {
+					sort.Strings(byBranch[br])
+					r.Bad("C02-R8", "filterTxs|a transaction applied to the check state is included ["+br+"]", p.InstrPos(ap), "under ["+br+"] the iteration can end at "+strings.Join(dedup(byBranch[br]), ", ")+" after applyTxOnState succeeded without the transaction having been appended to the block: its effects stay in the state the proposed roots are taken from — the honestly built block has invalid roots")
+				}
+			} else {
+				r.Und("C02-R8", "filterTxs|a transaction applied to the check state is included", p.InstrPos(ap), "anchors not found")
+			}
+		}
+	}
 }
 
 func c02R2(p *engine.Prog, r *engine.Report, ft, pt *ssa.Function) {
@@ -366,4 +443,40 @@ func isTxMemoRead(f *ssa.Function) bool {
 		}
 	}
 	return false
+}
+
+func keysOfLists(m map[string][]string) map[string]bool {
+	o := map[string]bool{}
+	for k := range m {
+		o[k] = true
+	}
+	return o
+}
+
+// configBranchOf names the consensus-configuration branch a block lies in: the boolean config fields tested by
+// the branches that dominate it, with polarity (e.g. "!EnableUpgrade10").
+func configBranchOf(b *ssa.BasicBlock) string {
+	set := map[string]bool{}
+	fn := b.Parent()
+	for _, iff := range engine.Ifs(fn) {
+		c, neg := stripNot(iff.Cond)
+		_, fld, ok := engine.FieldOf(engine.Origin(c))
+		if !ok || !strings.HasPrefix(fld, "Enable") {
+			continue
+		}
+		for s := 0; s < 2; s++ {
+			if engine.OnlyThroughPass(fn, b, []engine.Guard{{If: iff, PassTrue: s == 0}}) {
+				on := (s == 0) != neg
+				if on {
+					set[fld] = true
+				} else {
+					set["!"+fld] = true
+				}
+			}
+		}
+	}
+	if len(set) == 0 {
+		return "any configuration"
+	}
+	return joinKeys(set)
 }
